@@ -2852,10 +2852,15 @@ class AggregateBase(UnitsManaged, Saveable, OpenSystem):
                     # we need to subtract reorganization energies
                     # (states of the band are vibronic; the reorganization
                     # energy is the one of the molecule which is excited)
+                    # (without a bath, or with a bath given by rates, there is 
+                    # nothing to subtract)
                     for i in range(n1ex):
-                        re[i] = \
-                        self.sbi.get_reorganization_energy(
+                        lam = None
+                        if self.sbi is not None:
+                            lam = self.sbi.get_reorganization_energy(
                                                 self.elinds[start+i]-1)
+                        if lam is not None:
+                            re[i] = lam
                 else:
                     HH = relaxation_hamiltonian
                     Ndim = HH.dim
